@@ -13,6 +13,8 @@ CONSTANTS
   Frags = {1, 2}
   Auths = {"NONE", "SYS"}
   FixExport = %(fix)s
+  FullRead = %(full)s
+  SegSizes = {1, 3}
 INVARIANTS %(invs)s
 PROPERTY %(props)s
 """
@@ -30,22 +32,29 @@ def exhaustive(ctx):
     # the code as it is: every server that frames with record marking serves the session; a raw
     # server never produces anything a record-marking client accepts (so F20 is a total failure)
     cfg = ctx.write_cfg("Startup", "MC_code.cfg", CFG % dict(
-        xids=xids, fix="TRUE" if fixed else "FALSE",
+        xids=xids, fix="TRUE" if fixed else "FALSE", full="TRUE",
         invs="TypeOK RawNeverAnswers RmStreamFramed ServesRM" + (" Serves" if fixed else ""),
         props="CompletesRM" + (" Completes" if fixed else "")))
     ctx.tlc_exhaustive("Startup", "Startup", cfg, workers=2, timeout=300, heap="2g")
-    # the repaired design: C28 as stated
-    cfg = ctx.write_cfg("Startup", "MC_ideal.cfg", CFG % dict(
-        xids=xids, fix="TRUE", invs="TypeOK RawNeverAnswers RmStreamFramed ServesRM Serves", props="Completes CompletesRM"))
-    ctx.tlc_exhaustive("Startup", "Startup", cfg, workers=2, timeout=300, heap="2g")
+    if not fixed:
+        # the repaired design: C28 as stated
+        cfg = ctx.write_cfg("Startup", "MC_ideal.cfg", CFG % dict(
+            xids=xids, fix="TRUE", full="TRUE", invs="TypeOK RawNeverAnswers RmStreamFramed ServesRM Serves", props="Completes CompletesRM"))
+        ctx.tlc_exhaustive("Startup", "Startup", cfg, workers=2, timeout=300, heap="2g")
     ctx.cov["exhaustive"] = True
     # non-vacuity: with Export's framing as in the pinned code TLC finds the session failing
-    cfg = ctx.write_cfg("Startup", "MC_nv.cfg", CFG % dict(xids=xids, fix="FALSE", invs="Serves", props="CompletesRM"))
+    cfg = ctx.write_cfg("Startup", "MC_nv.cfg", CFG % dict(xids=xids, fix="FALSE", full="TRUE", invs="Serves", props="CompletesRM"))
     r = ctx.tlc_exhaustive("Startup", "Startup", cfg, expect_ok=False, count=False, workers=2, timeout=300, heap="2g")
     if r["violated"] != "Serves":
         raise vflib.Broken("non-vacuity run: expected Serves to be violated with FixExport=FALSE, got %s" % r["violated"])
+    # non-vacuity 2: a fragment reader that takes what a single Read returns loses a record that arrives in several TCP segments
+    cfg = ctx.write_cfg("Startup", "MC_nv_seg.cfg", CFG % dict(xids="{5}", fix="TRUE", full="FALSE", invs="ServesRM", props="CompletesRM"))
+    r = ctx.tlc_exhaustive("Startup", "Startup", cfg, expect_ok=False, count=False, workers=2, timeout=300, heap="2g")
+    if r["violated"] != "ServesRM":
+        raise vflib.Broken("non-vacuity run: expected ServesRM to be violated with FullRead=FALSE, got %s" % r["violated"])
     ctx.notes.append("non-vacuity: with Export's ServerOptions as in the pinned code (FixExport=FALSE) TLC finds invariant Serves violated "
-                     "(ClientSend -> ServeRaw closes -> ClientGiveUp)")
+                     "(ClientSend -> ServeRaw closes -> ClientGiveUp); with a single-Read fragment reader (FullRead=FALSE) and a call delivered in "
+                     "several TCP segments it finds ServesRM violated")
 
 
 def validate(ctx, trace, label):
@@ -143,8 +152,9 @@ def run(ctx):
                          "result no longer speaks about this code (not a verdict)")
     bind_mutation(ctx, lines)
     ctx.cov["rule"] = ("one history per started server: path x {port 0, explicit free port} x {debug, read-only} with the client "
-                       "variation (xid 0 / small / bit 31; one fragment / two fragments / split segments; AUTH_NONE / AUTH_SYS) rotated "
-                       "over them; non-trivial = the session reached an OK GETATTR of the mounted handle")
+                       "variation (xid 0 / small / bit 31; one fragment / two fragments / header and body in separate segments; AUTH_NONE / AUTH_SYS) rotated "
+                       "over them, and every started server additionally gets a session whose fragments arrive in several TCP segments "
+                       "(body split in two, or the whole stream dribbled 5 bytes at a time); non-trivial = the session reached an OK GETATTR of the mounted handle")
     ctx.cov["spec_actions_covered_by_impl"] = ["Start(Export)", "Start(ListenRM)", "Start(ListenRaw)"] + \
         (["Start(SWP)"] if paths_run.get("SWP", [0, 0])[0] else []) + ["Connect", "ClientSend", "ServeRM", "ServeRaw", "ClientRecv", "ClientGiveUp"]
     ctx.assumptions += ["the client in harness/vf_startup.go is a conformant ONC RPC/TCP client (RFC 1831 section 10 framing, AUTH_NONE/AUTH_SYS)",
